@@ -468,3 +468,26 @@ package ipfix
 //@     invariant wellFormed(m)
 //@   loop 3
 //@     invariant wellFormed(m) && shard != nil
+
+// >>> field snapshots (govc -gen-names)
+//@ fields Data Template Timestamp
+//@ fields DecodedField ID Value EnterpriseNo
+//@ fields Decoder raddr reader
+//@ fields Discovery conn group port rcvdMsg vFlowServers mu
+//@ fields ElementKey EnterpriseNo ElementID
+//@ fields IRPC reqCount mCache
+//@ fields InfoElementEntry FieldID Name Type
+//@ fields Message AgentID Header DataSets
+//@ fields MessageHeader Version Length ExportTime SequenceNo DomainID
+//@ fields RPCClient conn
+//@ fields RPCConfig Enabled Port Addr Logger
+//@ fields RPCRequest ID IP
+//@ fields SetHeader SetID Length
+//@ fields TemplateFieldSpecifier ElementID Length EnterpriseNo
+//@ fields TemplateHeader TemplateID FieldCount ScopeFieldCount
+//@ fields TemplateRecord TemplateID FieldCount FieldSpecifiers ScopeFieldCount ScopeFieldSpecifiers
+//@ fields TemplatesShard Templates RWMutex
+//@ fields memCacheDisk Cache ShardNo
+//@ fields nonfatalError error
+//@ fields vFlowServer timestamp
+// <<< field snapshots
